@@ -318,7 +318,13 @@ impl Lower<'_> {
                         VBody::Tuple(fs) => VariantKind::Tuple(self.fields(fs).into_iter().map(|i| Some(Id(i))).collect()),
                         VBody::Struct(fs) => VariantKind::Struct { fields: self.fields(fs).into_iter().map(Id).collect(), has_stripped_fields: false },
                     };
-                    self.item(vid, Some(v.name.clone()), vattrs, ItemEnum::Variant(rustdoc_types::Variant { kind, discriminant: None }));
+                    // an explicit discriminant (`Low = 5`) now and then: serde's variant index is the position among the
+                    // serialized variants whatever the discriminant says
+                    let discriminant = if matches!(kind, VariantKind::Plain) && vid % 3 == 0 {
+                        let d = (vid % 7 + 2).to_string();
+                        Some(rustdoc_types::Discriminant { expr: d.clone(), value: d })
+                    } else { None };
+                    self.item(vid, Some(v.name.clone()), vattrs, ItemEnum::Variant(rustdoc_types::Variant { kind, discriminant }));
                     vids.push(Id(vid));
                 }
                 ItemEnum::Enum(Enum { generics: no_generics(), has_stripped_variants: false, variants: vids, impls: vec![] })
